@@ -409,6 +409,17 @@ pub fn jobs_for(prop: &str, thorough: bool) -> Vec<Job> {
                     c2.delivery = Delivery::Causal;
                     js.push(job(s, "causal (no pending removes: full round trips)", c2, None, 800));
                 }
+                if ["OS", "MO", "MM", "MMO", "MMM"].contains(&s) {
+                    // four actors on one key path (states that three single-actor replicas cannot reach)
+                    let mut t = template_job(s, mon::SERDE, Delivery::Causal, false, 400);
+                    t.sweep = Some(Sweep { next: 12, disc: Delivery::Causal, causal_ref: 0, exhaustive_upto: 0, merges: false });
+                    js.push(t);
+                    let mut c4 = c;
+                    c4.nrep = 4;
+                    c4.nsteps = 24;
+                    c4.delivery = Delivery::Causal;
+                    js.push(job(s, "4 replicas, causal", c4, None, 500));
+                }
             }
         }
         "C20" => {
